@@ -18,7 +18,7 @@ ASSUMPTIONS = ['simulated Twisted reactor/transport (verif/shims)', 'reference d
 SHARD_TIMEOUT = {'quick': 240, 'thorough': 1500}
 DEPTH = {'quick': (3, 6), 'thorough': (4, 8)}
 PARTS = {'quick': 12, 'thorough': 15}
-WALKS = {'quick': (80, 150), 'thorough': (2000, 400)}
+WALKS = {'quick': (320, 150), 'thorough': (2000, 400)}
 BUDGET = {'quick': 40, 'thorough': 700}
 REST = ('R_UPD', 'R_WD', 'R_RR', 'R_BIN', 'R_RR6', 'R_RRVPN', 'R_UPDBAD', 'R_UPDNOATTR', 'R_BINBAD')
 ALPHA = S.ALPHABET_C01 + ['OPEN_nocap', 'UPD_atoverrun'] + S.ODD_LENGTH
